@@ -988,3 +988,90 @@ mutant('C06', 'neg-through-multiplication', UB, "        return self.__class__(-
 mutant('C05', 'table-key-written-twice', UN, "        'mNmm': 1e-6,", "        'mNmm': 1e-6,\n        'mNmm': 1e-3,", 'C05.table')
 multi('C11', 'time-grid-in-mutable-default', 'mutant', [
     (SV, "    def _compute_powertrain_inertia(self):", "    def _grid(self, items, grid=[]):\n        grid.extend(items)\n        return grid\n\n    def _compute_powertrain_inertia(self):")], 'C11.hidden-state')
+
+# ------------------------------------------------------------------------------------------ round-6 wave-B rules
+mutant('C15', 'fallback-before-computed-by-or', SPP, """        if computed_pwm_min != 0:
+            pwm_min = computed_pwm_min
+        else:
+            if self.__pwm_min is None:
+                raise ValueError("Missing 'pwm_min' parameter.")
+            pwm_min = self.__pwm_min
+""", """        pwm_min = self.__pwm_min or computed_pwm_min
+        if not pwm_min:
+            raise ValueError("Missing 'pwm_min' parameter.")
+""", 'C15')
+benign('C15', 'computed-before-fallback-by-or', SPP, """        if computed_pwm_min != 0:
+            pwm_min = computed_pwm_min
+        else:
+            if self.__pwm_min is None:
+                raise ValueError("Missing 'pwm_min' parameter.")
+            pwm_min = self.__pwm_min
+""", """        pwm_min = computed_pwm_min or self.__pwm_min
+        if pwm_min is None:
+            raise ValueError("Missing 'pwm_min' parameter.")
+""")
+multi('C14', 'conflict-only-between-neighbours', 'mutant', [
+    (PC, "from gearpy.powertrain import Powertrain\n", "from itertools import pairwise\nfrom gearpy.powertrain import Powertrain\n"),
+    (PC, "        if applied_rules >= 2:", "        if any(first is not None and second is not None for first, second in pairwise(pwm_values)):")], 'C14.shape')
+multi('C19', 'constructor-stores-unvalidated-pwm', 'mutant', [
+    (DC, "        maximum_electric_current: Optional[Current] = None\n    ):", "        maximum_electric_current: Optional[Current] = None,\n        pwm: float | int = 1\n    ):"),
+    (DC, "        self.__pwm = 1\n", "        self.__pwm = pwm\n")], 'C19')
+multi('C12', 'fresh-start-flag-cleared-in-module-helper', 'mutant', [
+    (SV, "            self.__powertrain_is_locked = False\n            self.__powertrain.update_time(initial_time)\n",
+         "            _start(self, initial_time)\n"),
+    (SV, "\nclass Solver:", "\ndef _start(solver, initial_time):\n    solver.__powertrain_is_locked = False\n    solver._Solver__powertrain.update_time(initial_time)\n\n\nclass Solver:")], 'C12')
+multi('C17', 'recorder-through-closures-kept-on-the-gear', 'mutant', [
+    (SG, "        if self.tangential_force_is_computable:\n            self.time_variables['tangential force'] = []\n",
+         "        self.__samplers = {}\n        if self.tangential_force_is_computable:\n            self.time_variables['tangential force'] = []\n"
+         "            self.__samplers['tangential force'] = lambda: self.tangential_force\n")], 'C17.hidden-state')
+mutant('C12', 'pwm-restored-in-finally', SV, """        for k in range(1, simulation_steps + 1):
+
+            self.__powertrain.update_time(
+                initial_time + k*time_discretization
+            )
+            self._time_integration(time_discretization=time_discretization)
+            self._compute_powertrain_variables(motor_control=motor_control)
+            if stop_condition is not None:
+                if stop_condition.check_condition():
+                    break
+""", """        motor = self.__powertrain.elements[0]
+        motor_pwm = motor.pwm
+        try:
+            for k in range(1, simulation_steps + 1):
+
+                self.__powertrain.update_time(
+                    initial_time + k*time_discretization
+                )
+                self._time_integration(time_discretization=time_discretization)
+                self._compute_powertrain_variables(motor_control=motor_control)
+                if stop_condition is not None:
+                    if stop_condition.check_condition():
+                        break
+        finally:
+            if motor_control is not None:
+                motor.pwm = motor_pwm
+""", 'C12')
+benign('C12', 'stepping-loop-in-try-finally-pass', SV, """        for k in range(1, simulation_steps + 1):
+
+            self.__powertrain.update_time(
+                initial_time + k*time_discretization
+            )
+            self._time_integration(time_discretization=time_discretization)
+            self._compute_powertrain_variables(motor_control=motor_control)
+            if stop_condition is not None:
+                if stop_condition.check_condition():
+                    break
+""", """        try:
+            for k in range(1, simulation_steps + 1):
+
+                self.__powertrain.update_time(
+                    initial_time + k*time_discretization
+                )
+                self._time_integration(time_discretization=time_discretization)
+                self._compute_powertrain_variables(motor_control=motor_control)
+                if stop_condition is not None:
+                    if stop_condition.check_condition():
+                        break
+        finally:
+            pass
+""")
